@@ -85,7 +85,13 @@ def check_model(net, bounds, P, stats, rich=False):
         objs.append(({ids[-1]: 1}, "max"))
     if rich and len(ids) > 1:
         objs.append(({ids[0]: 1, ids[-1]: -2}, "max"))
-    for obj, direction in objs:
+    pfba_only = []
+    if len(ids) > 1:
+        # objectives with a negative coefficient (the minimal-flux state may have a negative objective value, so that
+        # fraction 0 is a real constraint); outside the rich tier they are run through the pFBA part only
+        pfba_only = [o for o in (({ids[0]: 1, ids[-1]: -2}, "max"), ({ids[0]: -1, ids[-1]: 2}, "max")) if o not in objs]
+    for obj, direction in objs + pfba_only:
+        only_pfba = (obj, direction) in pfba_only
         fba = exactlp.FBA(mets, rxns, obj, direction)
         st, z, _ = fba.optimum()
         if st != OPT or z < 0:
@@ -154,6 +160,11 @@ def check_model(net, bounds, P, stats, rich=False):
                     bad(case, "total flux of the returned distribution is not minimal", f"{np.abs(v).sum()} vs {T}; v={v}")
                 if float(c @ v) < frac * float(z) - TOL * max(1, abs(float(z))):
                     bad(case, "objective below the requested fraction of the optimum", f"{c @ v} vs {frac}*{z}")
+        # ---- pFBA with an explicit solver objective that is not a combination of net fluxes ------------------
+        if len(ids) > 1 and not only_pfba:
+            out.extend(check_pfba_expression(net, bounds, mets, rxns, ids, obj, model, stats, S, lbs0, ubs0))
+        if only_pfba:
+            continue
         # ---- references ------------------------------------------------------------------
         with warnings.catch_warnings():
             warnings.simplefilter("ignore")
@@ -245,9 +256,126 @@ def check_model(net, bounds, P, stats, rich=False):
     return out
 
 
+def check_pfba_expression(net, bounds, mets, rxns, ids, obj, model, stats, S, lbs0, ubs0):
+    """pfba(model, objective=<optlang Objective>) where the objective is the model's first objective reaction minus
+    half the *forward variable* of the last reaction.  Exact oracle: the same network with the last reaction split
+    into its forward and reverse halves (bounds as cobra derives them), objective on the forward half."""
+    import numpy as np
+    from cobra.flux_analysis import pfba
+
+    out = []
+    first = next(iter(obj))
+    last = ids[-1] if ids[-1] != first else ids[0]
+    rid, st, lb, ub = [r for r in rxns if r[0] == last][0]
+    split = [r for r in rxns if r[0] != last]
+    split.append((last + "_f", dict(st), max(lb, 0), max(ub, 0)))
+    split.append((last + "_r", {m: -c for m, c in st.items()}, max(-ub, 0), max(-lb, 0)))
+    obj2 = {first: 1, last + "_f": F(-1, 2)}
+    fba2 = exactlp.FBA(mets, split, obj2, "max")
+    st2, z2, _ = fba2.optimum()
+    if st2 != OPT or z2 < 0:
+        return out
+    for frac in (1.0, 0.5, 0.0):
+        case = {"net": [list(x) for x in net], "bounds": [[_j(a), _j(b)] for a, b in bounds], "objective": obj,
+                "direction": "max", "method": "pfba", "fraction": frac, "form": "expression"}
+        stats["evaluations"] = stats.get("evaluations", 0) + 1
+
+        def bad(check, detail):
+            out.append(({"method": "pfba", "check": check, "form": "expression"}, case,
+                        f"{detail}\nobjective {first} - 0.5*forward({last})\nmodel: {rxns}\ncase: {case}"))
+
+        stT, T, _ = oracles.min_total_flux(fba2, frac)
+        try:
+            with warnings.catch_warnings():
+                warnings.simplefilter("ignore")
+                expr = model.reactions.get_by_id(first).flux_expression - 0.5 * model.reactions.get_by_id(last).forward_variable
+                sol = pfba(model, fraction_of_optimum=frac, objective=model.problem.Objective(expr, direction="max"))
+        except Exception as exc:
+            bad("raised on a feasible model", repr(exc))
+            continue
+        if stT != OPT:
+            bad("returned but the exact secondary problem has no optimum", stT)
+            continue
+        Tf = float(T)
+        if Tf != 0:
+            stats["nontrivial"] = stats.get("nontrivial", 0) + 1
+        if abs(sol.objective_value - Tf) > TOL * max(1, Tf):
+            bad("objective value is not the minimal total flux", f"{sol.objective_value} vs {T}")
+        v = np.array([sol.fluxes[r] for r in ids])
+        if np.max(np.abs(S @ v), initial=0) > TOL * (1 + np.abs(S).sum()) or np.any(v < lbs0 - TOL) or np.any(v > ubs0 + TOL):
+            bad("steady state or bounds violated", str(v))
+        if abs(np.abs(v).sum() - Tf) > TOL * max(1, Tf):
+            bad("total flux of the returned distribution is not minimal", f"{np.abs(v).sum()} vs {T}; v={v}")
+        val = v[ids.index(first)] - 0.5 * max(v[ids.index(last)], 0.0)
+        if val < frac * float(z2) - TOL * max(1, abs(float(z2))):
+            bad("objective below the requested fraction of the optimum", f"{val} vs {frac}*{z2}; v={v}")
+    return out
+
+
+def check_fraction0(net, bounds, stats):
+    """fraction_of_optimum = 0 is a real constraint (objective >= 0) whenever the flux-minimal state of the model has
+    a negative objective value: every objective r_i - r_j of a 4-reaction member for which the exact oracle says the
+    constraint is binding is run through pfba(model, fraction_of_optimum=0)."""
+    import numpy as np
+    from cobra.flux_analysis import pfba
+
+    mets, rxns = families.as_data(net, bounds)
+    ids = [r[0] for r in rxns]
+    free = exactlp.FBA(mets, rxns, {}, "max")
+    ok, _ = exactlp.feasible(free.lp())
+    if not ok:
+        return []
+    st0, T0, _ = oracles.min_total_flux(free, 1)
+    out = []
+    model = None
+    for ri in ids:
+        for rj in ids:
+            if ri == rj:
+                continue
+            obj = {ri: 1, rj: -1}
+            fba = exactlp.FBA(mets, rxns, obj, "max")
+            st, z, _ = fba.optimum()
+            if st != OPT or z < 0:
+                continue
+            stT, T, _ = oracles.min_total_flux(fba, 0)
+            if stT != OPT or st0 != OPT or T <= T0:
+                continue    # not binding: covered by the main pass
+            stats["evaluations"] = stats.get("evaluations", 0) + 1
+            stats["nontrivial"] = stats.get("nontrivial", 0) + 1
+            case = {"net": [list(x) for x in net], "bounds": [[_j(a), _j(b)] for a, b in bounds], "objective": obj,
+                    "direction": "max", "method": "pfba", "fraction": 0.0, "form": "binding_zero"}
+            if model is None:
+                model = families.build_model(mets, rxns)
+            model.objective = {model.reactions.get_by_id(r): c for r, c in obj.items()}
+            model.objective_direction = "max"
+            try:
+                with warnings.catch_warnings():
+                    warnings.simplefilter("ignore")
+                    sol = pfba(model, fraction_of_optimum=0.0)
+            except Exception as exc:
+                out.append(({"method": "pfba", "check": "raised on a feasible model", "form": "binding_zero"}, case, repr(exc)))
+                continue
+            v = np.array([sol.fluxes[r] for r in ids])
+            val = v[ids.index(ri)] - v[ids.index(rj)]
+            if val < -TOL:
+                out.append(({"method": "pfba", "check": "objective below the requested fraction of the optimum",
+                             "form": "binding_zero"}, case, f"objective {val} < 0 = 0 * {z}; v={v}\nmodel: {rxns}"))
+            if abs(sol.objective_value - float(T)) > TOL * max(1, float(T)):
+                out.append(({"method": "pfba", "check": "objective value is not the minimal total flux",
+                             "form": "binding_zero"}, case, f"{sol.objective_value} vs {T} (unconstrained minimum {T0})\nmodel: {rxns}"))
+    return out
+
+
 def run_task(payload):
     P = payload["params"]
     stats, violations = {}, []
+    if payload.get("fraction0"):
+        for net in payload["nets"]:
+            net = tuple(tuple(c) for c in net)
+            for bounds in families.bound_assignments(net, P["d"], P["menu"]):
+                stats["models_fraction0"] = stats.get("models_fraction0", 0) + 1
+                violations.extend(check_fraction0(net, bounds, stats))
+        return {"violations": violations[:300], "stats": stats}
     for net in payload["nets"]:
         net = tuple(tuple(c) for c in net)
         for bounds in families.bound_assignments(net, P["d"], P["menu"]):
@@ -259,7 +387,10 @@ def run_task(payload):
 def replay(case):
     net = tuple(tuple(c) for c in case["net"])
     bounds = tuple((_u(a), _u(b)) for a, b in case["bounds"])
-    out = check_model(net, bounds, params("thorough"), {}, rich=True)
+    if case.get("form") == "binding_zero":
+        out = check_fraction0(net, bounds, {})
+    else:
+        out = check_model(net, bounds, params("thorough"), {}, rich=True)
     keys = [k for k in case if k not in ("net", "bounds")]
     return [{"sig": s, "detail": d} for s, c, d in out if all(c.get(k) == case[k] for k in keys)]
 
@@ -275,6 +406,10 @@ def explore(ctx):
         ns = ns[off:] + ns[:off]
         nets += ns
         payloads += [{"params": PP, "nets": ns[i:i + 2], "rich": ctx.thorough and PP["nr"] == 3} for i in range(0, len(ns), 2)]
+    # fraction 0 as a binding constraint: 4-reaction members with one forced flux
+    P0 = dict(nm=3, nr=4, K=(-1, 0, 1), d=1, menu=[(2, 10), (-10, -2)] + ([(3, 3)] if ctx.thorough else []))
+    n4 = [n for n in families.networks(P0["nm"], P0["nr"], P0["K"]) if len(n) == 4]
+    payloads += [{"params": P0, "nets": n4[i:i + 8], "fraction0": True} for i in range(0, len(n4), 8)]
     stats = {}
     with ctx.pool(timeout=3000) as pool:
         for i, status, res in pool.imap(payloads):
@@ -294,6 +429,8 @@ def explore(ctx):
                 "(FBA, pFBA, default) x knock-out state (none, each single reaction)}; non-trivial = the exact secondary "
                 "optimum is non-zero" % (P["nm"], P["nr"], len(P["menu"]), P["d"]),
         "exhaustive": True, "networks": len(nets), "models": stats.get("models", 0), "exactlp_selftest_lps": n_self,
+        "fraction0_pass": "all %d four-reaction members x <=1 forced bound x every objective r_i - r_j whose fraction-0 "
+                          "constraint is binding according to the exact oracle (%d models)" % (len(n4), stats.get("models_fraction0", 0)),
     })
     ctx.sample({"net": [list(c) for c in nets[0]]})
     ctx.assumptions += ["finite bounds only (ROOM's big-M needs them)", "quadratic MOMA not covered (no QP solver)",
